@@ -19,7 +19,7 @@ PY_PERC = "PyLib PyLibSd PyLibPerc PySrcPerc PySrcPercFacts PyLibDrivers PySrcDr
 PY_CONTROL = "PyLib PyLibSd PyLibPerc PyLibCore PyLibControl PySrcControl PySrcControlFacts PySrcFindDriversFacts PySrcControlCorollaries"    # control.find_drivers, drivers_of_succession
 PY_ASEEDS = PY_MIN + " Candidates Blocks ASeeds PySrcSdASeeds PySrcSdASeedsFacts"     # _sd_algorithms/expand_attractor_seeds.py
 EXTRA_IMPORTS = {"C02": PY_SD + " " + PY_CORE2 + " PySrcEndToEnd", "C03": PY_SD + " " + PY_ASEEDS + " PySrcComplFacts", "C04": PY_SD + " " + PY_CORE, "C05": PY_CORE2 + " " + PY_MIN, "C13": PY_SD + " " + PY_TARGET + " " + PY_ASEEDS + " PySrcTermFacts", "C14": PY_CORE2, "C15": PY_SD + " " + PY_TARGET + " " + PY_ASEEDS, "C16": "PyLib PyLibPickle PySrcPickle PySrcPickleFacts " + PY_CORE2,
-                 "C06": PY_SPACE + " " + PY_TARGET + " PySrcEndToEndControl " + PY_CONTROL, "C07": PY_CONTROL, "C10": PY_PLACE, "C11": PY_PERC, "C19": PY_SD + " " + PY_CORE, "C20": PY_KEY + " " + PY_CORE2}
+                 "C06": PY_SPACE + " " + PY_TARGET + " PySrcEndToEndControl " + PY_CONTROL, "C07": PY_CONTROL, "C10": PY_PLACE, "C11": PY_PERC, "C19": PY_SD + " " + PY_CORE, "C20": PY_KEY + " " + PY_CORE2 + " PyLibSd PyLibPerc PySrcIso PySrcIsoFacts"}
 
 def imports_for(pid):
     extra = EXTRA_IMPORTS.get(pid)
@@ -555,7 +555,8 @@ SPEC["C20"] = dict(title="Reported diagram metadata is accurate", comment="""
 Model: node ids are list positions (contiguous from the root at 0, len = size); depths are maintained by
 raise_depth; find_node goes through the integer key; ObsFacts.is_subgraph_b models is_subgraph (after fix 087feea).
 PARTIAL: summary() is not modelled; it is decided by recomputation in the run.""",
- theorems=[("source_init", "py_init_spec", None),
+ theorems=[("source_is_subgraph", "py_is_subgraph_spec", "translator tie: SuccessionDiagram.is_subgraph / is_isomorphic as generated from the source compute the model's is_subgraph_b / is_isomorphic_b (whose specs are is_subgraph_b_spec / is_isomorphic_b_spec)"), ("source_is_isomorphic", "py_is_isomorphic_spec", None),
+           ("source_init", "py_init_spec", None),
            ("source_depth", "py_depth_spec", "translator tie: SuccessionDiagram.depth as generated from the source = Diagram.depth"),
            ("source_ensure_node", "py_ensure_node_spec", "... _ensure_node / _ensure_edge / _update_node_depth compute Diagram.ensure_node"),
            ("source_len", "py_len_spec", "translator tie: __len__, root and node_is_minimal as generated from the source"), ("source_root", "py_root_spec", None), ("source_node_is_minimal", "py_node_is_minimal_spec", None),
